@@ -32,7 +32,9 @@ func init() {
 	})
 }
 
-var c16Props = []ref.Props{{LC: 1, LP: 1, PB: 2}, {LC: 0, LP: 2, PB: 1}, {LC: 2, LP: 0, PB: 3}}
+// lc >= 1 everywhere: the literal context of the first literal after a dictionary reset
+// depends on the previous byte (0 after a real reset), which makes a skipped reset visible
+var c16Props = []ref.Props{{LC: 1, LP: 1, PB: 2}, {LC: 2, LP: 0, PB: 1}, {LC: 1, LP: 0, PB: 3}}
 
 // c16Build realises a kind sequence as bytes. Chunks are observably
 // different if a reset is skipped: odd plaintext lengths with lp,pb>0 make
@@ -56,7 +58,10 @@ func c16Build(kinds []int) (data []byte, plains [][]byte, offsets []int) {
 			if kind == ref.CLZMAFull {
 				win = 0
 			}
-			ops := []ref.Op{{Kind: ref.OpLit, Byte: byte('A' + i)}, {Kind: ref.OpLit, Byte: 'a'}, {Kind: ref.OpLit, Byte: byte('A' + i)}}
+			// three low literals first: the 2nd/3rd reuse the literal context (position parity,
+			// previous byte < 0x20) that the 1st one adapted — only if the decoder saw the same context
+			ops := []ref.Op{{Kind: ref.OpLit, Byte: 1}, {Kind: ref.OpLit, Byte: 1}, {Kind: ref.OpLit, Byte: 2}, {Kind: ref.OpLit, Byte: 1},
+				{Kind: ref.OpLit, Byte: byte('A' + i)}, {Kind: ref.OpLit, Byte: 'a'}, {Kind: ref.OpLit, Byte: byte('A' + i)}}
 			if win >= 3 {
 				ops = append(ops, ref.Op{Kind: ref.OpMatch, Len: 3, Dist: uint32(win + 1)}) // reaches into the previous chunk
 			} else {
